@@ -92,7 +92,7 @@ def extra_harnesses():
                     hs.append(Harness(f"c08_fir_k{nt}_d{deci}_c{cap}_{sname(s)}", f"crate::c08::fir({nt}, {deci}, 6, {cap}, {rs_sched(s)}, 10)",
                                       unwind=16, unit="FirFilter::work", timeout=1500,
                                       shape={"block": "fir", "taps": nt, "deci": deci, "L": 6, "cap": cap, "schedule": s},
-                                      core=(nt == 2 and deci == 2 and cap == base + 1 and si in (1, 2))))
+                                      core=(nt == 2 and deci == 2 and cap == base + 1 and si == 2) or (nt == 2 and deci == 1 and cap == 3 and si == 1)))
     # AuDecode: header 28 bytes + data; input capacity must hold the 20 header-rest bytes
     for nd in (4, 5, 7):
         for si, s in enumerate(([(28, 0), (3, 1), (64, 8)], [(7, 0), (7, 0), (14, 0), (3, 0), (2, 1)], [(33, 8), (1, 8), (64, 8)], [(28, 0), (1, 0), (1, 0), (64, 1)])):
